@@ -24,6 +24,8 @@ WITNESSES = [
      'type-level witness: spawn_detached() is not noexcept when it has to allocate the operation state (bad_alloc must propagate out of spawn instead of terminating); connect() of an adaptor is not noexcept when moving the receiver into the operation state can throw - with the same answer in every build configuration (debug routes connect through the async-stack wrapper); bulk_transform\'s connect is not noexcept when its source\'s connect can throw'),
     ('R-WITNESS-HOP', ['C10', 'C11'], 'affinity_hop.cpp', ['d20', 'r20', 'v20'],
      'type-level witness (C++20): the hop back to the scheduler that with_scheduler_affinity() appends to a non-affine sender (every co_await in a task<>) is started with unstoppable_token, while the awaited sender still sees the consumer\'s stop token; affine senders are returned unchanged'),
+    ('R-WITNESS-TRAITS', ['C11', 'C05'], 'traits.cpp', None,
+     'type-level witness: computed sender traits are sound - let_value (a predecessor with two value overloads whose factory picks differently typed successors), stop_when and sequence do not declare is_always_scheduler_affine when a sender that can deliver their completion is not affine, declare sends_done when a successor can send done, and are not blocking always_inline when a stage is not'),
     ('R-WITNESS-NOEXCEPT-CORO', ['C10', 'C05'], 'noexcept_coro.cpp', ['d20', 'r20', 'v20'],
      'type-level witness (C++20): the receiver storing a co_awaited value is noexcept exactly when constructing the value from the arguments actually passed cannot throw'),
 ]
